@@ -132,6 +132,8 @@ def _run(job):
                 if layout[j] != 'constant':
                     v = np.sort(old[c].to_numpy(dtype=float))
                     old[c] = (v if j % 2 else v[::-1]) * 0.5 + 3.0
+            if seed % 2:          # the earlier table had its columns in another order
+                old = old[list(old.columns)[::-1]]
             m.fit(old)
             m.sample(3)
         if as_array:
